@@ -17,7 +17,7 @@
 #endif
 #define FTS_NMAX NFMAX
 #include "fe_contracts.h"
-#define ROWSZ (((FLEN + 16 + 15) / 16) * 16)
+#define ROWSZ(p) (MISOFF(p) + FLEN)      /* EXACT-size objects (C15): a supplied fragment ends where its object ends, so any read past fragment_len is out of bounds; the object base is 16-byte aligned, offset 1 makes the fragment misaligned */
 #define MISOFF(p) (MIS == 0 ? 0 : MIS == 1 ? 1 : ((p) & 1))
 int fragments_to_string(int k, int m, char **fragments, int num_fragments, char **orig_payload, uint64_t *payload_len);
 int get_fragment_partition(int k, int m, char **fragments, int num_fragments, char **data, char **parity, int *missing);
@@ -27,7 +27,7 @@ static unsigned char *slot[NFMAX]; static char *list[NFMAX];
 static void make_list(void)
 {
   for (int p = 0; p < NFMAX; p++) {
-    slot[p] = malloc(ROWSZ);
+    slot[p] = malloc(ROWSZ(p));
     unsigned char *h = slot[p] + MISOFF(p);
     for (int b = 0; b < FLEN; b++) h[b] = nondet_uchar();
     if (nondet_bool()) W32(SPEC_OFF_MAGIC, SPEC_MAGIC);             /* native magic, or anything */
@@ -83,7 +83,7 @@ void harness(void)
   __CPROVER_assume(rp == 0);
   for (int i = 0; i < K; i++) d2[i] = d1[i];
   for (int j = 0; j < M; j++) p2[j] = p1[j];
-  unsigned char *before[NFMAX]; for (int p = 0; p < NFMAX; p++) { before[p] = malloc(ROWSZ); memcpy(before[p], slot[p], ROWSZ); }
+  unsigned char *before[NFMAX]; for (int p = 0; p < NFMAX; p++) { before[p] = malloc(ROWSZ(p)); memcpy(before[p], slot[p], ROWSZ(p)); }
   int o1 = 7, o2 = 7, b1 = 7, b2 = 7; uint64_t bm1 = 0, bm2 = 0;
   int r1 = prepare_fragments_for_decode(K, M, d1, p1, mi, &o1, &b1, FLEN, &bm1);
   int r2 = c_prepare_fragments_for_decode(K, M, d2, p2, mi, &o2, &b2, FLEN, &bm2);
@@ -100,7 +100,7 @@ void harness(void)
       }
     } else __CPROVER_assert(a == c, "prepare_fragments_for_decode: aligned supplied fragments stay in place");
   }
-  { int p = nondet_int(), b = nondet_int(); __CPROVER_assume(0 <= p && p < NFMAX && 0 <= b && b < ROWSZ);
+  { int p = nondet_int(), b = nondet_int(); __CPROVER_assume(0 <= p && p < NFMAX && 0 <= b && b < ROWSZ(p));
     __CPROVER_assert(slot[p][b] == before[p][b], "prepare_fragments_for_decode/C15: the caller's fragments are neither written nor freed"); }
   if (r2 == 0) CANARY("prepare succeeds");
 #else
